@@ -181,6 +181,11 @@ func (i *IndexSnapshotTermFieldReader) Advance(ID index.IndexInternalID, preAllo
 			}
 		}
 	}
+	if len(i.iterators) == 0 {
+		// a snapshot without segments (empty index) has no offsets to
+		// search: there is nothing at or after any target
+		return nil, nil
+	}
 	num := ID.Value()
 	segIndex, ldocNum := i.snapshot.segmentIndexAndLocalDocNumFromGlobal(num)
 	if segIndex >= len(i.snapshot.segment) {
